@@ -34,7 +34,7 @@ REQUIRED_BRANCHES = ['conv_inside', 'conv_knot', 'conv_above', 'conv_below_error
                      'hist_conv_repeat_interp', 'hist_sed_after_flux', 'hist_sed_var_after_flux',
                      'conv_knot_other_unit', 'sed_knot_other_unit', 'var_knot_other_unit', 'conv_empty_request',
                      'sed_empty_request', 'var_single_filter', 'conv_flux_err_units_differ', 'sed_flux_other_unit',
-                     'conv_names_blank_or_bytes', 'conv_huge_range', 'sed_huge_range', 'conv_first_knot_exact',
+                     'conv_below_near_error', 'sed_below_near_error', 'var_below_near_error', 'conv_names_blank_or_bytes', 'conv_huge_range', 'sed_huge_range', 'conv_first_knot_exact',
                      'sed_first_knot_exact']
 ASSUMPTIONS = ['IEEE rounding is not modelled: values are compared with a rounding budget of 1e-9 relative + 1e-12 x the '
                'largest tabulated magnitude of the row (linear interpolation between very different values cancels)',
@@ -88,6 +88,12 @@ def gen_req(rng, aps, kinds, interior_knots_only=False):
             x = float('%.5g' % (aps[-1] * rng.uniform(1.01, 5.)))
         elif k == 'below':
             x = float('%.5g' % (aps[0] * rng.uniform(0.1, 0.99)))
+        elif k in ('below5', 'below6', 'below9'):
+            # strictly below the smallest tabulated radius, just outside any rounding: must still be refused
+            x = aps[0] * (1. - {'below5': 1e-5, 'below6': 1e-6, 'below9': 1e-9}[k])
+            assert x < aps[0]
+        elif k == 'above6':
+            x = aps[-1] * (1. + 1e-6)
         else:
             raise ValueError(k)
         out.append(x)
@@ -97,7 +103,7 @@ def gen_req(rng, aps, kinds, interior_knots_only=False):
 def pick_kinds(rng, n, allow_below):
     ks = [rng.choice(['inside', 'inside', 'knot', 'above', 'first', 'last']) for _ in range(n)]
     if allow_below and rng.random() < 0.15:
-        ks[rng.randrange(n)] = 'below'
+        ks[rng.randrange(n)] = rng.choice(['below', 'below', 'below5', 'below6', 'below9'])
     return ks
 
 
@@ -181,6 +187,9 @@ def gen_conv(rng, directed=None):
         n_ap = max(n_ap, 2); kinds = []
     elif directed == 'conv_units_differ':
         n_ap = max(n_ap, 2); ru = tu; kinds = ['first', 'inside', 'knot', 'above']
+    elif directed in ('conv_below5', 'conv_below6', 'conv_below9'):
+        n_ap = max(n_ap, 2); kinds = ['inside', directed[5:]]
+        ru = rng.choice([tu, other(tu)])
     elif directed == 'conv_huge':
         n_ap = max(n_ap, 3); ru = tu; kinds = ['first', 'inside', 'knot', 'last', 'above']
     elif directed == 'conv_names':
@@ -239,6 +248,9 @@ def gen_sed(rng, directed=None):
         n_ap = max(n_ap, 2); kinds = []
     elif directed == 'sed_units_differ':
         n_ap = max(n_ap, 2)
+    elif directed in ('sed_below5', 'sed_below6', 'sed_below9'):
+        n_ap = max(n_ap, 2); kinds = ['inside', directed[4:]]
+        ru = rng.choice(['bare', 'au', 'pc', 'cm', 'm', 'km'])
     elif directed == 'sed_huge':
         n_ap = max(n_ap, 3); kinds = ['first', 'inside', 'first', 'last', 'above']
         ru = rng.choice(['bare', 'bare', tu, rng.choice(UNIT_NAMES)])
@@ -286,6 +298,8 @@ def gen_var(rng, directed=None, tu=None):
         tu = rng.choice(['pc', 'cm', 'm', 'km'])
     elif directed == 'var_single_filter':
         n_ap = max(n_ap, 2); nf = 1
+    elif directed in ('var_below5', 'var_below6', 'var_below9'):
+        n_ap = max(n_ap, 2); nf = max(nf, 2); kinds = [directed[4:]] + ['inside'] * (nf - 1)
     elif directed == 'var_huge':
         n_ap = max(n_ap, 3); nf = max(nf, 2); kinds = ['first'] + ['inside'] * (nf - 1)
     # `aps` are the AU numbers the code derives (`self.apertures.to(u.au).value`); `aps_stored` what the SED holds
@@ -323,6 +337,9 @@ DIRECTED = [('conv', d) for d in ['conv_inside', 'conv_knot', 'conv_above', 'con
             ['var_on_min'] * 8 + ['var_knot_other_unit'] * 8] + \
            [('conv', d) for d in ['conv_knot_other_unit'] * 12 + ['conv_empty'] + ['conv_units_differ'] * 4] + \
            [('sed', 'sed_units_differ'), ('var', 'var_units_differ')] + \
+           [('conv', d) for d in ['conv_below5', 'conv_below6', 'conv_below9'] * 3] + \
+           [('sed', d) for d in ['sed_below5', 'sed_below6', 'sed_below9'] * 4] + \
+           [('var', d) for d in ['var_below5', 'var_below6', 'var_below9'] * 2] + \
            [('conv', d) for d in ['conv_huge'] * 4 + ['conv_names'] * 8] + [('sed', 'sed_huge')] * 8 + [('var', 'var_huge')] * 3 + \
            [('sed', d) for d in ['sed_knot_other_unit'] * 12 + ['sed_empty']] + \
            [('hist', d) for d in ['h_error', 'h_flux', 'h_both', 'h_aps', 'h_aps_only', 'h_repeat', 'h_long'] * 2] + \
@@ -407,6 +424,8 @@ def classify(aps, xs, prefix, branches):
     for x in xs:
         if x < aps[0]:
             branches.add(prefix + '_below_error')
+            if x > aps[0] * (1. - 2e-5):
+                branches.add(prefix + '_below_near_error')
         elif x > aps[-1]:
             branches.add(prefix + '_above')
         elif x in aps:
@@ -629,6 +648,8 @@ def run_var(case, s=None):
     else:
         if any(a < aps[0] for a in fa):
             branches.add('var_below_error')
+            if any(aps[0] * (1. - 2e-5) < a < aps[0] for a in fa):
+                branches.add('var_below_near_error')
         if any(a > aps[-1] for a in fa):
             branches.add('var_above')
         if any(a == aps[0] for a in fa):
